@@ -9,6 +9,7 @@ mkdir -p $W/seed $W/demo; cp -rf $d/demo* $W/seed/ 2>/dev/null; [ -d $d/demo_dir
 failed() { [ "$1" != 0 ] || grep -qE "test result: FAILED|error: test failed|panicked at|VIOLAT" "$2"; }
 echo "== demo without patch"; ( eval "$cmd" ) > $W.demo_clean.log 2>&1; rc_clean=$?; failed $rc_clean $W.demo_clean.log && rc_clean=1 || rc_clean=0
 git apply $d/patch.diff || { echo "patch does not apply"; exit 2; }
+git clean -fdq -- searchlite-core/tests searchlite-http/tests searchlite-cli/tests searchlite-ffi/tests 2>/dev/null
 echo "== tests with patch"; CARGO_TARGET_DIR=$T cargo test --workspace --no-fail-fast --offline > $W.tests.log 2>&1
 passed=$(grep -E "^test result" $W.tests.log | awk '{p+=$4; f+=$6} END {print p" "f}')
 touch $(git diff --name-only) 2>/dev/null
